@@ -30,7 +30,13 @@ type txSpec struct {
 
 func runC06(c *core.Ctx) {
 	if core.FAvailable() {
-		runC06F(c) // Engine F phase (instrumented build): concurrent peers, per-transaction linearizability
+		// Engine F phase (instrumented build): concurrent peers with per-transaction linearizability, or
+		// (one run in three) the end-to-end world with the nodes and the manager under the scheduler
+		if c.T.Chance(1, 3) {
+			runC06EndToEnd(c)
+			return
+		}
+		runC06F(c)
 		return
 	}
 	if c.T.Chance(2, 5) {
@@ -310,7 +316,13 @@ func procSaved(p *nw.Processor, h bitcoin.Hash32) int {
 func runC06EndToEnd(c *core.Ctx) {
 	t := c.T
 	timeout := 2 * time.Second
+	fd, endF := nw.StartF(c) // Engine F phase: nodes and manager under the statement scheduler
+	defer endF()
 	w := nw.New(c, nw.Options{TxManager: true, TxTimeout: timeout})
+	w.FD = fd
+	if fd != nil {
+		w.Early = 15
+	}
 	nPeers := 2 + t.Draw(3)
 	var peers []*nw.Peer
 	w.NoDelay = true
@@ -328,10 +340,16 @@ func runC06EndToEnd(c *core.Ctx) {
 	nTx := 1 + t.Draw(5)
 	var txs []*wire.MsgTx
 	var ids []bitcoin.Hash32
-	for k := 0; k < nTx; k++ {
+	usedBucket := map[byte]bool{}
+	for k := 0; len(txs) < nTx; k++ {
 		tx := nw.MakeTx(uint32(70000+k), t.Draw(50))
+		h := *tx.TxHash()
+		if fd != nil && usedBucket[h[0]] {
+			continue // Engine F: one txid per bucket (map iteration order is not the simulation's)
+		}
+		usedBucket[h[0]] = true
 		txs = append(txs, tx)
-		ids = append(ids, *tx.TxHash())
+		ids = append(ids, h)
 	}
 	idx := func(h bitcoin.Hash32) int {
 		for i, id := range ids {
